@@ -16,7 +16,8 @@ CONSTANTS N, Signed,
           Operands,      \* the operand values of the instance (a subset of the type)
           Counts,        \* shift counts of the instance
           MaxPowExp,     \* largest exponent (results of Pow must fit TLC's integers)
-          Deviations
+          Deviations,    \* deviations switched on in the model under check ({} = the reference)
+          Explain        \* deviations whose single-deviation predictions are exported
 
 VARIABLES a, b, op, out
 vars == <<a, b, op, out>>
@@ -48,6 +49,18 @@ Enabled(o, x, y) ==
 
 AllOps == ArithOps \cup CmpOps \cup ShiftOps \cup UnaryOps
 
+\* the Elk types a shift count may have (typedef Std::AnyInt); the harness keeps those the real
+\* checker admits and in which the count is representable
+CountTypes == {"Int", "Int8", "Int16", "Int32", "Int64", "UInt8", "UInt16", "UInt32", "UInt64", "UInt"}
+Shift(D, o, x, y, ct) ==
+  CASE o = "shl" -> I_shl(D, N, Signed, x, y, ct) [] o = "shr" -> I_shr(D, N, Signed, x, y, ct)
+    [] o = "lshl" -> I_lshl(D, N, Signed, x, y, ct) [] o = "lshr" -> I_lshr(D, N, Signed, x, y, ct)
+\* what the model predicts, per count type, with exactly one known deviation switched on
+DeviantShifts(x, y) ==
+  { [op |-> o, ct |-> ct, d |-> d, k |-> Shift({d}, o, x, y, ct).k, v |-> Shift({d}, o, x, y, ct).v] :
+      <<o, ct, d>> \in { t \in ShiftOps \X CountTypes \X Explain :
+                            Shift({t[3]}, t[1], x, y, t[2]) # Shift({}, t[1], x, y, t[2]) } }
+
 Init == /\ a \in Values /\ b \in Values \cup Counts
         /\ op = "" /\ out = None
 
@@ -60,7 +73,8 @@ Observe == /\ op = ""
            /\ op' = "observed" /\ out' = None
            /\ PrintT(<<"GEN", ToJson([a |-> a, b |-> b,
                  r |-> [o \in { p \in AllOps : Enabled(p, a, b) } |-> Result(o, a, b).v],
-                 k |-> [o \in { p \in AllOps : Enabled(p, a, b) } |-> Result(o, a, b).k]])>>)
+                 k |-> [o \in { p \in AllOps : Enabled(p, a, b) } |-> Result(o, a, b).k],
+                 dev |-> IF b \in Counts THEN DeviantShifts(a, b) ELSE {}])>>)
            /\ UNCHANGED <<a, b>>
 
 Add == Apply("add")      Sub == Apply("sub")       Mul == Apply("mul")     Div == Apply("div")
